@@ -9,7 +9,7 @@ func init() {
 	register("C36", []string{".", "./internal/overlap"}, runC36)
 	register("C37", []string{"."}, runC37)
 	propExplain["C36"] = "Decides structural clauses of C36: ingested tables become visible only through the commit pipeline (ingestApply is referenced only from DB.ingest's apply callback; link ⊢ attach ⊢ provider sync ⊢ AllocateSeqNum); the caller's original files are removed only after AllocateSeqNum and only on the success edge, and the files linked by this ingest are cleaned up on the failure edge; an excise is registered in ongoingExcises under DB.mu and unregistered only after the pipeline published it; a flushable ingest writes and syncs its WAL record (fatal on error) before the ingested flushable is queued and the read state refreshed. (O3) the prepare callback examines every queued flushable for overlap with the ingest (no iteration of that loop ends without the overlap call). Shares C43.N1 (nil from an iterator positioning call is confirmed by Error(): the overlap probe that picks the ingest's target level, the excise boundary search). Does not decide equivalence to a batch (behaviour)."
-	propExplain["C37"] = "Decides structural clauses of C37: an eventually-file-only snapshot reads its sequence number, waits for overlapping excises and registers itself (snapshot list or version reference) in one DB.mu region (C03.R1); the transition stores the version into the snapshot before the underlying sequence-number snapshot is closed, all under the EFOS mutex; the version reference handed to the transition is stored or released on every path (C04.P3); transitions are attempted only after a flush refreshed the read state through a successful MANIFEST update. (O4) at creation every entry of the flushable queue is examined for overlap with the snapshot's key ranges before the snapshot may start out file-only (no iteration of that loop ends without the overlap call). Does not decide protected-range semantics."
+	propExplain["C37"] = "Decides structural clauses of C37: an eventually-file-only snapshot reads its sequence number, waits for overlapping excises and registers itself (snapshot list or version reference) in one DB.mu region (C03.R1); the transition stores the version into the snapshot before the underlying sequence-number snapshot is closed, all under the EFOS mutex; the version reference handed to the transition is stored or released on every path (C04.P3); transitions are attempted only after a flush refreshed the read state through a successful MANIFEST update. (O4) at creation every entry of the flushable queue is examined for overlap with the snapshot's key ranges before the snapshot may start out file-only (no iteration of that loop ends without the overlap call). Does not decide protected-range semantics. (V1, shared with C03/C45) NewIter and ScanInternal of an eventually-file-only snapshot pass the snapshot's own sequence number on every definition of their options, before and after the file-only transition."
 	propTechnique["C36"] = "who-may-call, SSA error-gated dominance, lock-region, obligation-as-fact"
 	propTechnique["C37"] = "SSA lock-region and ordering dataflow, resource pairing"
 }
@@ -161,6 +161,7 @@ func runC36(c *Ctx) {
 }
 
 func runC37(c *Ctx) {
+	efosReadsAtOwnSeqNum(c, "C37.V1")
 	// C37.O4: an EFOS starts out file-only only if NO queued flushable may overlap its key ranges.
 	// The loop over the flushable queue examines every entry: on each back edge of that loop the
 	// entry's computePossibleOverlaps has been called (no `continue` that skips a kind of flushable
